@@ -178,11 +178,15 @@ func (r *router) AttachClient(client wamp.Peer, transportDetails wamp.Dict) erro
 		return err
 	}
 	// Lookup or create realm to attach to.
+	// The ABORT for a refused client is sent after the router's goroutine has
+	// answered, not from inside it: sending to, and closing, the client's
+	// peer can take time, during which no other client could be attached.
 	var realm *realm
+	var abortReason wamp.URI
 	sync := make(chan error)
 	if !r.submit(func() {
 		if r.closed {
-			sendAbort(wamp.ErrSystemShutdown, nil)
+			abortReason = wamp.ErrSystemShutdown
 			sync <- errors.New("router is closing, not accepting new clients")
 			return
 		}
@@ -194,7 +198,7 @@ func (r *router) AttachClient(client wamp.Peer, transportDetails wamp.Dict) erro
 			// If the router is not configured to automatically create the
 			// realm, then respond with an ABORT message.
 			if r.realmTemplate == nil {
-				sendAbort(wamp.ErrNoSuchRealm, nil)
+				abortReason = wamp.ErrNoSuchRealm
 				sync <- fmt.Errorf("no realm \"%s\" exists on this router",
 					string(hello.Realm))
 				return
@@ -204,7 +208,7 @@ func (r *router) AttachClient(client wamp.Peer, transportDetails wamp.Dict) erro
 			config := *r.realmTemplate
 			config.URI = hello.Realm
 			if realm, err = r.addRealm(&config); err != nil {
-				sendAbort(wamp.ErrNoSuchRealm, nil)
+				abortReason = wamp.ErrNoSuchRealm
 				sync <- fmt.Errorf("failed to create realm \"%s\"",
 					string(hello.Realm))
 				return
@@ -220,6 +224,7 @@ func (r *router) AttachClient(client wamp.Peer, transportDetails wamp.Dict) erro
 	}
 	err = <-sync
 	if err != nil {
+		sendAbort(abortReason, nil)
 		return err
 	}
 
